@@ -100,3 +100,145 @@ Proof.
   assert (Hg : forall v, jget s_runs (JObj [(s_runs, v)]) = Some v) by (intros v; reflexivity).
   unfold codeql_spec. rewrite !Hg. simpl arr_of. now rewrite flat_map_app.
 Qed.
+
+(** Completeness: the readers raise exactly on documents with an individually unreadable element. *)
+Lemma mapM_total {A B} (f : A -> option B) l :
+  mapM f l = if forallb (fun x => is_some (f x)) l then mapM f l else None.
+Proof.
+  induction l as [|x l IH]; simpl; [reflexivity|].
+  destruct (f x) as [y|]; simpl; [|reflexivity].
+  destruct (forallb (fun x0 => is_some (f x0)) l); [reflexivity|]. rewrite IH. reflexivity.
+Qed.
+
+Lemma mapM_is_some {A B} (f : A -> option B) l :
+  is_some (mapM f l) = forallb (fun x => is_some (f x)) l.
+Proof.
+  induction l as [|x l IH]; simpl; [reflexivity|].
+  destruct (f x) as [y|]; simpl; [|reflexivity].
+  rewrite <- IH. destruct (mapM f l); reflexivity.
+Qed.
+
+Lemma forallb_ext_in {A} (P Q : A -> bool) l : (forall x, P x = Q x) -> forallb P l = forallb Q l.
+Proof. intros H. induction l as [|x l IH]; simpl; [reflexivity|]. now rewrite H, IH. Qed.
+
+Lemma is_some_bind_jarr {B} (o : option json) (k : list json -> option B) :
+  is_some (x <- o ;; l <- jarr x ;; k l) = match o with Some (JArr l) => is_some (k l) | _ => false end.
+Proof. destruct o as [[| | | |l|]|]; reflexivity. Qed.
+
+Lemma semgrep_result_readable run result :
+  is_some (semgrep_result run result) =
+  match extract_rule_id result run with
+  | Some rule => all_arr (jget s_locations result) (fun loc => is_some (semgrep_location rule loc))
+  | None => false
+  end.
+Proof.
+  unfold semgrep_result. destruct (extract_rule_id result run) as [rule|]; cbn [bind]; [|reflexivity].
+  rewrite is_some_bind_jarr. unfold all_arr.
+  destruct (jget s_locations result) as [[| | | |l|]|]; try reflexivity. apply mapM_is_some.
+Qed.
+
+Lemma semgrep_run_readable run :
+  is_some (semgrep_run run) =
+  all_arr (jget s_results run) (fun result =>
+      match extract_rule_id result run with
+      | Some rule => all_arr (jget s_locations result) (fun loc => is_some (semgrep_location rule loc))
+      | None => false
+      end).
+Proof.
+  unfold semgrep_run. rewrite is_some_bind_jarr. unfold all_arr at 1.
+  destruct (jget s_results run) as [[| | | |l|]|]; try reflexivity.
+  transitivity (is_some (mapM (semgrep_result run) l)).
+  - destruct (mapM (semgrep_result run) l); reflexivity.
+  - rewrite mapM_is_some. apply forallb_ext_in. intros x. apply semgrep_result_readable.
+Qed.
+
+Lemma semgrep_reader_readable doc : is_some (semgrep_reader doc) = readable_semgrep doc.
+Proof.
+  unfold semgrep_reader, readable_semgrep. rewrite is_some_bind_jarr. unfold all_arr at 1.
+  destruct (jget s_runs doc) as [[| | | |l|]|]; try reflexivity.
+  transitivity (is_some (mapM semgrep_run l)).
+  - destruct (mapM semgrep_run l); reflexivity.
+  - rewrite mapM_is_some. apply forallb_ext_in. intros x. apply semgrep_run_readable.
+Qed.
+
+Theorem semgrep_reader_exact doc :
+  semgrep_reader doc = if readable_semgrep doc then Some (semgrep_spec doc) else None.
+Proof.
+  rewrite <- semgrep_reader_readable. destruct (semgrep_reader doc) as [fs|] eqn:E; simpl; [|reflexivity].
+  f_equal. now apply semgrep_reader_sound.
+Qed.
+
+Lemma codeql_result_readable run result :
+  is_some (codeql_result run result) =
+  match extract_rule_id result run with
+  | Some rule => all_arr (jget s_locations result) (fun loc => is_some (codeql_location rule loc))
+  | None => false
+  end.
+Proof.
+  unfold codeql_result. destruct (extract_rule_id result run) as [rule|]; cbn [bind]; [|reflexivity].
+  rewrite is_some_bind_jarr. unfold all_arr.
+  destruct (jget s_locations result) as [[| | | |l|]|]; try reflexivity. apply mapM_is_some.
+Qed.
+
+Lemma codeql_run_readable run :
+  is_some (codeql_run run) =
+  match codeql_detect run with
+  | Some true =>
+      all_arr (jget s_results run) (fun result =>
+        match extract_rule_id result run with
+        | Some rule => all_arr (jget s_locations result) (fun loc => is_some (codeql_location rule loc))
+        | None => false
+        end)
+  | Some false => true
+  | None => false
+  end.
+Proof.
+  unfold codeql_run. destruct (codeql_detect run) as [[|]|]; cbn [bind]; try reflexivity.
+  rewrite is_some_bind_jarr. unfold all_arr at 1.
+  destruct (jget s_results run) as [[| | | |l|]|]; try reflexivity.
+  transitivity (is_some (mapM (codeql_result run) l)).
+  - destruct (mapM (codeql_result run) l); reflexivity.
+  - rewrite mapM_is_some. apply forallb_ext_in. intros x. apply codeql_result_readable.
+Qed.
+
+Lemma codeql_reader_readable doc : is_some (codeql_reader doc) = readable_codeql doc.
+Proof.
+  unfold codeql_reader, readable_codeql. rewrite is_some_bind_jarr. unfold all_arr at 1.
+  destruct (jget s_runs doc) as [[| | | |l|]|]; try reflexivity.
+  transitivity (is_some (mapM codeql_run l)).
+  - destruct (mapM codeql_run l); reflexivity.
+  - rewrite mapM_is_some. apply forallb_ext_in. intros x. apply codeql_run_readable.
+Qed.
+
+Theorem codeql_reader_exact doc :
+  codeql_reader doc = if readable_codeql doc then Some (codeql_spec doc) else None.
+Proof.
+  rewrite <- codeql_reader_readable. destruct (codeql_reader doc) as [fs|] eqn:E; simpl; [|reflexivity].
+  f_equal. now apply codeql_reader_sound.
+Qed.
+
+Lemma dd_reader_readable doc : is_some (dd_reader doc) = readable_dd doc.
+Proof.
+  unfold dd_reader, readable_dd, all_arr. destruct (jget s_results doc) as [[| | | |l|]|]; try reflexivity.
+  apply mapM_is_some.
+Qed.
+
+Theorem dd_reader_exact doc : dd_reader doc = if readable_dd doc then Some (dd_spec doc) else None.
+Proof.
+  rewrite <- dd_reader_readable. destruct (dd_reader doc) as [fs|] eqn:E; simpl; [|reflexivity].
+  f_equal. now apply dd_reader_sound.
+Qed.
+
+(** witnesses for the non-vacuity example *)
+Definition w_loc (line : Z) : json :=
+  JObj [(s_physicalLocation, JObj [(s_artifactLocation, JObj [(s_uri, JStr [97;46;112;121]%N)]);
+                                   (s_region, JObj [(s_startLine, JNum line); (s_startColumn, JNum 1);
+                                                    (s_endLine, JNum line); (s_endColumn, JNum 9)])])].
+Definition w_loc_bad : json := JObj [(s_physicalLocation, JObj [(s_artifactLocation, JObj [])])].
+Definition w_run (locs : list json) : json :=
+  JObj [(s_tool, JObj [(s_driver, JObj [(s_name, JStr s_CodeQL)])]);
+        (s_results, JArr [JObj [(s_ruleId, JStr [114;49]%N); (s_locations, JArr locs)]])].
+Definition w_sarif : json := JObj [(s_runs, JArr [w_run [w_loc 3; w_loc 7]])].
+Definition w_sarif_bad : json := JObj [(s_runs, JArr [w_run [w_loc 3; w_loc_bad]])].
+Definition w_dd : json :=
+  JObj [(s_results, JArr [JObj [(s_id, JNum 5); (s_title, JStr [114;49]%N); (s_file_path, JStr [97;46;112;121]%N); (s_line, JNum 3)]])].
